@@ -42,9 +42,10 @@ def scenarios(seed, tier):
     out = []
     combos = [("compress", False, "small", 1), ("compress", True, "multi", 1), ("decompress", False, "multi", 1),
               ("decompress", True, "small", 1), ("compress", False, "small", 2), ("decompress", False, "small", 2)]
+    combos += [("compress", False, "multi", 1), ("decompress", False, "small", 1)]
     if tier != "quick":
-        combos += [("compress", False, "multi", 1), ("compress", True, "small", 1), ("decompress", False, "small", 1),
-                   ("decompress", True, "multi", 1), ("compress", True, "multi", 2), ("decompress", False, "multi", 2)]
+        combos += [("compress", True, "small", 1), ("decompress", True, "multi", 1), ("compress", True, "multi", 2),
+                   ("decompress", False, "multi", 2)]
     for i, (mode, keep, size, nops) in enumerate(combos):
         n = [1, 2, 4][(i + seed) % 3]
         ops = []
@@ -134,6 +135,15 @@ def items_for(scs, seed, tier):
             items.append({"sc": si, "kind": "wall", "sig": r.choice(["SIGINT", "SIGTERM", "SIGKILL"]),
                           "ms": r.choice([0, 1, 2, 3, 5, 8, 12, 20, 40]), "win": False, "op": "-", "k": j})
         items.append({"sc": si, "kind": "corrupt", "op": "-", "k": 0, "win": True})
+        # legal but unusual kernel behaviour: every read()/write() is cut short (no error): the run must simply succeed
+        for j in range(3 if tier == "quick" else 10):
+            items.append({"sc": si, "kind": "short", "op": "-", "k": r.randrange(10**6), "win": True})
+        # a real file-size limit (RLIMIT_FSIZE) that falls inside the output of the first operand: the kernel first
+        # returns a short count, then fails the next write with EFBIG / SIGXFSZ
+        L = len(sc["ops"][0]["ref_out"])
+        for lim in sorted({0, 1, L // 2, max(0, L - 1), max(0, L - 5), max(0, L - 10), r.randrange(L + 1)}):
+            if lim < L:
+                items.append({"sc": si, "kind": "fsize", "op": "-", "k": lim, "win": True})
     return items
 
 
@@ -147,6 +157,14 @@ def run_item(exe, shim, sc, item, td):
         return run_in(exe, sc, td, env)
     if item["kind"] == "corrupt":
         return run_in(exe, sc, td, {})
+    if item["kind"] == "short":
+        env["IOFAULT"] = "short=%d" % item["k"]
+        return run_in(exe, sc, td, env)
+    if item["kind"] == "fsize":
+        import resource
+        lim = item["k"]
+        return core.run([exe] + sc["argv"] + [o["in_name"] for o in sc["ops"]], cwd=td, timeout=TIMEOUT,
+                        preexec=lambda: resource.setrlimit(resource.RLIMIT_FSIZE, (lim, lim)))
     # wall clock
     import subprocess
     e = dict(core.BASE_ENV)
@@ -180,7 +198,7 @@ def judge(sc, item, r, td):
     if r.timeout:
         return "HANG", []
     injected_sig = SIGS.get(item.get("sig")) if item["kind"] in ("sig", "wall") else None
-    if item["kind"] == "fail" and item["err"] == "EFBIG":
+    if (item["kind"] == "fail" and item["err"] == "EFBIG") or item["kind"] == "fsize":
         injected_sig = signal.SIGXFSZ
     rc = r.rc
     died = rc is not None and rc < 0
@@ -221,6 +239,8 @@ def judge(sc, item, r, td):
     extra = set(os.listdir(td)) - expected_names
     if extra:
         return "unexpected files left behind: %s" % sorted(extra), states
+    if item["kind"] == "fsize" and states and states[0] != "A":
+        return "file-size limit inside the first output, yet the operand is in state %s (status %s)" % (states[0], rc), states
     if kill9 or died:
         return None, states
     # exit status versus state
@@ -237,7 +257,12 @@ def judge(sc, item, r, td):
         # descriptor, which lbzip2 performs after the operand is finished and reports truthfully
         if not (item["kind"] == "fail" and item["op"] == "close"):
             return "exit status 1 although every operand is complete", states
-    if rc == 1 and not r.err.strip() and not (item["kind"] == "fail" and item.get("err") == "EFBIG"):
+    if item["kind"] == "short" and (rc != 0 or any(s != "B" for s in states)):
+        return "short reads/writes (no error) ended with status %s, states %s" % (rc, states), states
+    if item["kind"] == "fsize" and states and states[0] != "A":
+        return "file-size limit inside the first output, yet the operand is in state %s (status %s)" % (states[0], rc), states
+    if rc == 1 and not r.err.strip() and not (item["kind"] == "fail" and item.get("err") == "EFBIG") \
+            and item["kind"] != "fsize":
         return "exit status 1 without a diagnostic", states
     return None, states
 
